@@ -5,7 +5,7 @@ VARIABLE tr
 Init == tr = 1
 Next == /\ tr <= Len(Traces)
         /\ LET t == Traces[tr] s == GenScenarios[t.sc] st == FlattenSeq(t.writes) IN
-           PrintT(<<"VERDICT", t.id, IF StreamOK(st, s.cmds, s.mode) THEN "ok" ELSE StreamSig(st, s.cmds, s.mode)>>)
+           PrintT("VERDICT|" \o t.id \o "|" \o (IF StreamOK(st, s.cmds, s.mode) THEN "ok" ELSE StreamSig(st, s.cmds, s.mode)))
         /\ tr' = tr + 1
 Spec == Init /\ [][Next]_tr
 =============================================================================
